@@ -599,3 +599,12 @@ CHECKS["C11"]["text"] += (
     "it only when missing).")
 CHECKS["C11"]["text"] += (
     " Representations include the UTF-8 bytes of texts and numeric strings.")
+CHECKS["C02"]["text"] += (
+    " Metadata are compared with the measurement's as captured before the "
+    "first export; a second, unfiltered export from the same dataset "
+    "instance must carry them unchanged.")
+CHECKS["C08"]["text"] += (
+    " Inputs hold two tables with attributes of their own.")
+CHECKS["C14"]["text"] += (
+    " File-type definitions with an explicitly empty feature list never "
+    "contribute; a dangling location may also be a directory.")
